@@ -39,7 +39,7 @@ def _case(draw, tier, adaptive=False):
     combo = draw(st.sampled_from(sdes.accepted_combos(include_grad_free=True, all_levy=True)))
     spec = draw(sdes_closed.closed_specs(combo["sde_type"], combo["noise_type"], allow_nc=True))
     T = draw(st.sampled_from([0.5, 1.0, 1.0, 0.75]))
-    t0 = draw(st.sampled_from([0.0, 0.0, 0.5, -1.0]))
+    t0 = draw(st.sampled_from([0.0, 0.0, 0.5, -1.0, 4096.0, -20000.0]))      # also windows far from the time origin
     return {"kind": "adaptive" if adaptive else "ladder", "combo": combo, "spec": spec, "t0": t0, "T": T,
             "entropy": draw(st.integers(0, 2 ** 31 - 2)), "y0seed": draw(st.integers(0, 2 ** 31 - 1)),
             "kmax": 8 if tier == "quick" else 10, "paths": 2048 if tier == "quick" else 4096,
@@ -123,7 +123,7 @@ def enumerate_cases(tier):
                              "om": rnd.choice([0.0, 1.0, 3.0])})
             else:
                 spec.update({"d": 2, "m": 2, "kappa": coef(-1, 1)})
-            yield {"kind": "ladder", "combo": combo, "spec": spec, "t0": rnd.choice([0.0, 0.5, -1.0]),
+            yield {"kind": "ladder", "combo": combo, "spec": spec, "t0": rnd.choice([0.0, 0.5, -1.0, 0.0, 4096.0, -20000.0]),
                    "T": rnd.choice([0.5, 1.0, 0.75]), "entropy": rnd.randrange(2 ** 31 - 2),
                    "y0seed": rnd.randrange(2 ** 31), "kmax": 8 if tier == "quick" else 10,
                    "paths": 2048 if tier == "quick" else 4096, "clip": (idx + seed) % 2 == 0,
@@ -131,7 +131,7 @@ def enumerate_cases(tier):
             if (fam, phi) == ADAPTIVE_FAMILY[nt]:
                 # the adaptive clause on every accepted cell as well (a curved family where there is one): random draws
                 # alone left e.g. (reversible_heun, adaptive, non-linear coefficients) unvisited in most runs
-                yield {"kind": "adaptive", "combo": combo, "spec": dict(spec), "t0": rnd.choice([0.0, 0.5, -1.0]),
+                yield {"kind": "adaptive", "combo": combo, "spec": dict(spec), "t0": rnd.choice([0.0, 0.5, -1.0, 0.0, 4096.0, -20000.0]),
                        "T": rnd.choice([0.5, 1.0]), "entropy": rnd.randrange(2 ** 31 - 2),
                        "y0seed": rnd.randrange(2 ** 31), "kmax": 8, "paths": 512 if tier == "quick" else 2048,
                        "clip": False, "dt0": [0.5, 1.0, 2.0, 0.1][(idx + seed) % 4], "rel_only": (idx + seed) % 2 == 0}
@@ -192,6 +192,10 @@ def run_case(case):
     combo, spec = case["combo"], case["spec"]
     nc = spec["family"] == "triangular_nc"
     anl = spec["family"] == "additive_nl"
+    if abs(case["t0"]) > 100 and spec["family"] == "scaled_additive":
+        # this family's coefficients contain exp(lam t): not a meaningful problem at |t| ~ 1e4 (overflow); keep the window
+        # near the origin for it
+        case = dict(case, t0=0.5)
     kmax = case.get("kmax", 8)
     B = case.get("paths", 2048) // (2 if (nc or anl) else 1)
     if case.get("ts_list"):
